@@ -557,7 +557,7 @@ class Sim(object):
             kw['fullDumpFile'] = os.path.join(self.scratch(), safe + '.dump')
         return kw
 
-    def make_consumers(self):
+    def make_consumers(self, for_model=False):
         kinds = self.cfg.get('consumers', [])
         if not kinds:
             return []
